@@ -88,6 +88,23 @@ Proof.
   rewrite map_nth, seq_nth by exact Hq. reflexivity.
 Qed.
 
+(* on i64 weights the loads of the machine are the loads of the specification *)
+Lemma wload_Z vw p q : wload vw p q = load vw p q.
+Proof.
+  revert p. induction vw as [|w vw IH]; intros [|x p]; cbn [wload load]; try reflexivity.
+  rewrite IH. reflexivity.
+Qed.
+Lemma wloads_Z vw p k : wloads vw p k = loads vw p k.
+Proof. unfold wloads, loads. apply map_ext. intros q. apply wload_Z. Qed.
+
+Lemma load_bounds vw p q : Forall (fun x => 0 <= x) vw -> 0 <= load vw p q <= sumZ vw.
+Proof.
+  intros H. revert p. induction H as [|w vw Hw _ IH]; intros p; [cbn; lia|].
+  change (sumZ (w :: vw)) with (w + sumZ vw). destruct p as [|x p]; cbn [load].
+  - pose proof (IH []). destruct vw; cbn [load] in *; lia.
+  - specialize (IH p). destruct (Nat.eqb x q); lia.
+Qed.
+
 Section Caps.
 Variable cf : config.
 Let g := cf_g cf.
@@ -100,8 +117,13 @@ Hypothesis in_range : forall a u, In u (nbrs g a) -> (u < length g)%nat.
 Hypothesis vw_nonneg : Forall (fun x => 0 <= x) vw.
 (* what the caps need from the headroom division: never more than a 1/tc share, never a
    positive share of a negative headroom *)
-Hypothesis hr_spec : forall d h, cf_hr cf d tc = Some h ->
-  (0 <= d -> 0 <= h /\ Z.of_nat tc * h <= d) /\ (d <= 0 -> h <= 0).
+(* what the caps need from the headroom division, on the operands that arise (cap minus the load
+   of a part): never more than a 1/tc share plus [slack] in total, never a positive share of a
+   negative headroom.  slack = 0 for the exact quotient; slack > 0 accounts for the f64 roundings above 2^53 *)
+Variable slack : Z.
+Hypothesis slack_nonneg : 0 <= slack.
+Hypothesis hr_spec : forall d h, cf_cap cf - sumZ vw <= d <= cf_cap cf -> cf_hr cf d tc = Some h ->
+  (0 <= d -> 0 <= h /\ Z.of_nat tc * h <= d + slack) /\ (d <= 0 -> h <= 0).
 Variable p0 : list nat.
 Hypothesis len_p0 : length p0 = length g.
 Hypothesis ids_p0 : Forall (fun x => (x < k)%nat) p0.
@@ -130,7 +152,7 @@ Proof.
     apply decide_spec in Hd as (_ & _ & Hpw & [Hu | (Hs & _ & wv & pwt & mx & E1 & E2 & E3 & Hle)]).
     - apply Hnot. now rewrite Hu.
     - unfold cap_ok. rewrite Hs. exists wv. split; [exact E1|].
-      rewrite Hpw. apply nz_nth_opt in E2, E3. lia. }
+      rewrite Hpw. apply nz_nth_opt in E2, E3. cbn in Hle. apply Z.ltb_ge in Hle. lia. }
   all: apply Hnot.
   all: wstep_inv H; try discriminate.
   all: injection H as <- <- <-; cbn [set_pc w_pc is_store]; auto.
@@ -152,21 +174,23 @@ Record cinv (st : gstate) : Prop := {
   ci_load : forall q, (q < k)%nat -> load vw (g_part st) q = nz (g_pw st) q + sum_d q (g_pw st) (g_ws st);
   ci_nw : g_fin st = false -> length (g_ws st) = tc;
   ci_fin : g_fin st = true -> g_ws st = [];
-  ci_bound : forall q, (q < k)%nat -> nz (g_pw st) q <= Z.max (load vw p0 q) (cf_cap cf)
+  ci_range : forall q, (q < k)%nat -> 0 <= nz (g_pw st) q <= sumZ vw;
+  ci_bound : forall q, (q < k)%nat -> nz (g_pw st) q <= Z.max (load vw p0 q) (cf_cap cf + slack)
 }.
 
 (* the conclusion: every part is below max(input weight, cap) *)
 Lemma cinv_caps st : cinv st -> forall q, (q < k)%nat ->
-  load vw (g_part st) q <= Z.max (load vw p0 q) (cf_cap cf).
+  load vw (g_part st) q <= Z.max (load vw p0 q) (cf_cap cf + slack).
 Proof.
-  intros [Hlpw Htm Hlw Hcap Hloc Hload Hnw Hfin Hb] q Hq.
+  intros [Hlpw Htm Hlw Hcap Hloc Hload Hnw Hfin Hrg Hb] q Hq.
   rewrite (Hload q Hq). specialize (Hb q Hq).
   destruct (g_fin st) eqn:Ef.
   - rewrite (Hfin eq_refl). unfold sum_d. cbn. lia.
   - specialize (Htm eq_refl). specialize (Hnw eq_refl).
     destruct (thread_max_spec _ _ _ Htm) as [_ Hspec].
     destruct (Hspec q) as (h & Hh & Hnz); [rewrite Hlpw; exact Hq|].
-    destruct (hr_spec _ _ Hh) as [Hp Hn].
+    assert (Hrange : cf_cap cf - sumZ vw <= cf_cap cf - nz (g_pw st) q <= cf_cap cf) by (specialize (Hrg q Hq); lia).
+    destruct (hr_spec _ _ Hrange Hh) as [Hp Hn].
     assert (Hd : sum_d q (g_pw st) (g_ws st) <= Z.of_nat (length (g_ws st)) * Z.max 0 h).
     { unfold sum_d. apply sum_le_bound. eapply Forall_impl; [|exact Hloc].
       intros w Hw. cbn beta in Hw. specialize (Hw q Hq). lia. }
@@ -184,7 +208,7 @@ Lemma wstep_cinv st t w locks' part' w' :
   wstep cf (g_tmax st) (g_locks st) (g_part st) w = Some (locks', part', w') ->
   cinv (mkG locks' part' (set_nth (g_ws st) t w') (g_pw st) (g_tmax st) (g_md st) false).
 Proof.
-  intros Hnf [Hlpw Htm Hlw Hcap Hloc Hload Hnw Hfin Hb] Hg Hw Hstep.
+  intros Hnf [Hlpw Htm Hlw Hcap Hloc Hload Hnw Hfin Hrg Hb] Hg Hw Hstep.
   pose proof (wstep_cap_ok _ _ _ _ _ _ _ Hstep) as Hcap'.
   pose proof (Forall_nth_opt _ _ _ _ Hlw Hw) as Hlen_w. cbn beta in Hlen_w.
   pose proof (Forall_nth_opt _ _ _ _ Hloc Hw) as Hloc_w. cbn beta in Hloc_w.
@@ -192,6 +216,7 @@ Proof.
   - destruct (w_pc w) as [ | | | | | | v ip tg gn | | | | ] eqn:Hpc; try discriminate Hst.
     destruct (wstep_store _ _ _ _ _ _ _ _ _ _ _ _ Hstep Hpc)
       as (-> & Hv & _ & _ & Hpc' & wv & a & b & Ewv & Ea & Eb & Epw).
+    cbn [w_sub w_add wops_Z] in Eb, Epw.
     pose proof (gi_gain _ _ _ Hg _ _ Hw) as Hgw. unfold gain_ok in Hgw. rewrite Hpc in Hgw.
     destruct Hgw as (Hip & _ & Htg & Htk & _ & _).
     pose proof (Forall_nth_opt _ _ _ _ Hcap Hw) as Hcw. unfold cap_ok in Hcw. rewrite Hpc in Hcw.
@@ -258,7 +283,7 @@ Lemma merged_pw_loads st : g_fin st = false -> cinv st ->
   forall q, (q < k)%nat ->
     nz (pw_merge (cf_tc cf) (pw_sum (cf_k cf) (g_ws st)) (g_pw st)) q = load vw (g_part st) q.
 Proof.
-  intros Hnf [Hlpw Htm Hlw Hcap Hloc Hload Hnw Hfin Hb].
+  intros Hnf [Hlpw Htm Hlw Hcap Hloc Hload Hnw Hfin Hrg Hb].
   destruct (pw_sum_spec k _ Hlw) as [Ls Ns].
   destruct (pw_merge_spec (cf_tc cf) _ _ k Ls Hlpw) as [Lm Nm].
   split; [exact Lm|].
@@ -269,7 +294,7 @@ Qed.
 Lemma end_pass_cinv st st' : g_fin st = false -> cinv st -> end_pass cf st = Some st' -> cinv st'.
 Proof.
   intros Hnf Hc H. pose proof (cinv_caps _ Hc) as Hcaps.
-  destruct Hc as [Hlpw Htm Hlw Hcap Hloc Hload Hnw Hfin Hb].
+  destruct Hc as [Hlpw Htm Hlw Hcap Hloc Hload Hnw Hfin Hrg Hb].
   unfold end_pass in H.
   set (pw' := pw_merge (cf_tc cf) (pw_sum (cf_k cf) (g_ws st)) (g_pw st)) in *.
   destruct (pw_sum_spec k _ Hlw) as [Ls Ns].
@@ -277,8 +302,10 @@ Proof.
   change (pw_merge (cf_tc cf) (pw_sum k (g_ws st)) (g_pw st)) with pw' in Lm, Nm.
   assert (Hpw' : forall q, (q < k)%nat -> nz pw' q = load vw (g_part st) q).
   { intros q Hq. rewrite (Nm q Hq), Ns, (Hload q Hq), sum_d_split, (Hnw Hnf). fold tc. lia. }
-  assert (Hb' : forall q, (q < k)%nat -> nz pw' q <= Z.max (load vw p0 q) (cf_cap cf)).
+  assert (Hb' : forall q, (q < k)%nat -> nz pw' q <= Z.max (load vw p0 q) (cf_cap cf + slack)).
   { intros q Hq. rewrite (Hpw' q Hq). now apply Hcaps. }
+  assert (Hrg' : forall q, (q < k)%nat -> 0 <= nz pw' q <= sumZ vw).
+  { intros q Hq. rewrite (Hpw' q Hq). now apply load_bounds. }
   destruct (_ =? 0).
   - injection H as <-. split; cbn [g_locks g_part g_ws g_md g_pw g_tmax g_fin]; auto; try discriminate.
     intros q Hq. rewrite (Hpw' q Hq). unfold sum_d. cbn. lia.
@@ -306,7 +333,7 @@ Qed.
 
 Lemma init_cinv st0 : init_state cf p0 = Some st0 -> cinv st0.
 Proof.
-  unfold init_state. fold vw k.
+  unfold init_state. rewrite wloads_Z. fold vw k.
   destruct (thread_max cf (loads vw p0 k)) as [tm|] eqn:Et; [|discriminate]. intros [= <-].
   assert (Ll : length (loads vw p0 k) = k) by (unfold loads; now rewrite map_length, seq_length).
   split; cbn [g_locks g_part g_ws g_md g_pw g_tmax g_fin]; auto; try discriminate.
@@ -316,6 +343,7 @@ Proof.
   - intros q Hq. rewrite sum_d_const; [rewrite nz_loads by exact Hq; lia|].
     apply init_workers_Forall. auto.
   - intros _. unfold init_workers. now rewrite map_length, seq_length.
+  - intros q Hq. rewrite nz_loads by exact Hq. now apply load_bounds.
   - intros q Hq. rewrite nz_loads by exact Hq. lia.
 Qed.
 
